@@ -3,7 +3,7 @@
    releaseutil.SortManifests, action.Install (dry run) and kube.Client.Create, and reports
    the indices of the cases whose observed result differs from the model's. *)
 From Coq Require Import List String Ascii Bool Arith ZArith.
-From Helm Require Import Common.Assoc Common.Strs Text.Split Text.KindSort Text.Classify Text.Batch
+From Helm Require Import Common.Assoc Common.Strs Text.Split Text.KindSort Text.Classify Text.Uninstall Text.Batch
   Gen.KindOrder Gen.Events.
 Import ListNotations.
 Local Open Scope string_scope.
@@ -52,6 +52,11 @@ Inductive case :=
 | CSort (uninstall : bool) (pfiles : list (string * list piece)) (heads : list (string * option head)) (obs : sort_obs)
 (* action.Install dry run: rendered files (path -> text), head table, Release.Hooks + Release.Manifest *)
 | CRender (pfiles : list (string * list piece)) (heads : list (string * option head)) (obs : render_obs)
+(* action.Install then action.Uninstall (hooks disabled): rendered files, head table (also for
+   the documents of the stored manifest), and the documents of the stream handed to
+   KubeClient.Build for deletion, in order (positions in the head table; the harness checks
+   that the stream is "\n---\n" ++ document, repeated, byte for byte) *)
+| CUninstall (pfiles : list (string * list piece)) (heads : list (string * option head)) (obs : option (list nat))
 (* kube.Client.Create: Kind of every resource in list order, observed fn start/end events
    in the order they happened, which creates failed *)
 | CBarrier (kinds : list string) (failing : list nat) (evs : list event) (reported_failures : nat).
@@ -124,6 +129,18 @@ Definition case_ok (c : case) : bool :=
       | ORenderOk ohs pieces =>
           match render_resources (head_table heads) install_order files, pieces_text (map fst heads) pieces with
           | RenderOk hs txt, Some otxt => list_eqb2 (hook_eqb (map fst heads)) hs ohs && String.eqb txt otxt
+          | _, _ => false
+          end
+      end
+  | CUninstall pfiles heads obs =>
+      let files := build_files heads pfiles in
+      match render_resources (head_table heads) install_order files with
+      | RenderErr => match obs with None => true | Some _ => false end
+      | RenderOk _ txt =>
+          match delete_order (head_table heads) uninstall_order txt, obs with
+          | DeleteOrder del _, Some idx =>
+              list_eqb2 (fun m i => doc_is (map fst heads) i (m_content m)) del idx
+          | DeleteCorrupted, None => true
           | _, _ => false
           end
       end
